@@ -12,6 +12,7 @@ CONSTANTS
   MaxDetach = 0
   MaxEnv = 0
   NPS = 7
+  MaxDbf = 0
   MaxFail = 1
 INVARIANTS AckedExclusive AckedOnDisk OneWriter GcAlone
 VIEW MCView
